@@ -42,3 +42,29 @@ From CRS Require Import Model.ProxyOut Proofs.ProxyOutProofs.
 Theorem c11_queue_logged_is_delivered : forall cap reads es,
   let s := prun cap (pinit reads) es in logged s = shown s ++ och s.
 Proof. exact logged_is_delivered. Qed.
+
+From CRS Require Import Lib.Split Model.LogFile Proofs.LogFileProofs.
+(** The log FILE across runs: opened with O_APPEND (the flags are read off the
+    working tree by translator/openflags on every run and turned into the mode
+    by [mode_of_flags]: per-run obligation c11_tree_log_opened_for_append), the
+    file is what was there before followed by every record written through an
+    open description, in write order - for any number of successive or
+    overlapping runs and any interleaving of their writes; records being
+    newline-free lines, the file split into lines is the old lines followed by
+    exactly the records.  Opening without O_APPEND (or with O_TRUNC) is refuted:
+    a second run destroys the first run's records. *)
+Theorem c11_append_keeps_everything : forall ops s,
+  l_file (lrun MAppend s ops) = l_file s ++ concat (written (opened_of s) ops).
+Proof. exact append_keeps_everything. Qed.
+Theorem c11_file_lines_are_the_records : forall old recs ops,
+  Forall (fun r => ~ In 10 r) old -> Forall (fun r => ~ In 10 r) recs ->
+  written [] ops = map (fun r => r ++ [10]) recs ->
+  split_on 10 (l_file (lrun MAppend (linit (concat (map (fun r => r ++ [10]) old))) ops)) = old ++ recs ++ [[]].
+Proof. exact append_lines_are_the_records. Qed.
+Theorem c11_from_start_refuted :
+  exists ops, written [] ops = [[97; 97; 97; 97; 10]; [98; 10]] /\
+              split_on 10 (l_file (lrun MFromStart (linit []) ops)) = [[98]; [97; 97]; []].
+Proof. exact from_start_refuted. Qed.
+Theorem c11_trunc_refuted :
+  exists ops, written [] ops = [[97; 10]; [98; 10]] /\ l_file (lrun MTrunc (linit []) ops) = [98; 10].
+Proof. exact trunc_refuted. Qed.
